@@ -7,25 +7,25 @@ CLAIMED = {
     # id: (harness / engine, technique, level text, level note, design ref)
     "C01": ("detsim", "deterministic simulation: seeded schedule search over generated lock programs, holder-count invariant checked at every acquisition",
             "Seeded search (sampling) over thread schedules of generated read/write lock programs running the real Resource code; every acquisition is checked against 'writers<=1 and not(writer and reader)'. Exploration is the right level: the property is quantified over schedules, the defect class is small-scope (<=3 threads), and each failure is an exactly replayable schedule.",
-            "Trusted: pthread model of sim/detsim.cpp; interleavings at synchronisation-call granularity (all Resource state is under its mutex, so this loses nothing); sampling, not proof.", "§5 C01"),
+            "Three legs: A (ASan, tulz asserts live), R (as released: -O2 -DNDEBUG, only the harness oracle can notice), T (every std::atomic operation is a scheduling point). Trusted: pthread/futex model of sim/detsim.cpp; interleavings at synchronisation-call (A, R) or atomic-operation (T) granularity; sampling, not proof.", "§5 C01"),
     "C02": ("detsim", "deterministic simulation: scheduler-level deadlock detection (bounded liveness) + idle probe after quiescence, with and without injected spurious wake-ups",
             "Every generated program must run to completion under every sampled schedule (no runnable thread while a requester is parked = lost wake-up), and after all threads are joined the Resource must grant write, read, read without parking.",
-            "Trusted: pthread model; spurious wake-ups are injected only in half of the runs because they can mask a lost notification; sampling.", "§5 C02"),
+            "Legs A and T (atomic scheduling points). Trusted: pthread/futex model; spurious wake-ups are injected only in half of the runs because they can mask a lost notification; a per-run clock-speed knob lets simulated seconds pass so that timed waits would expire; sampling.", "§5 C02"),
     "C03": ("detsim", "deterministic simulation: order rule over recorded issue/park/grant events of every sampled schedule",
             "History check: if request A was observed parked before request B was issued and they are not both reads, B is never granted before A. The premise uses scheduler-visible parking, so it does not depend on tie-breaking between truly concurrent calls.",
-            "Trusted: pthread model; park = thread blocked in pthread_cond_wait inside lock*(); sampling.", "§5 C03"),
+            "Legs A and T. Trusted: pthread/futex model; park = thread blocked in pthread_cond_wait inside lock*(); rules are per Resource when a program uses two; sampling.", "§5 C03"),
     "C07": ("detsim", "deterministic simulation: seeded schedule search over owner programs on one ThreadPool; task life-cycle log checked per task (runs<=1, destroyed exactly once, never during run, must-run tasks ran, FIFO with one worker)",
             "Generated owner programs (start/clear/stop/restart/wait/getters, Runnable tasks and callables with lvalue arguments) against the real ThreadPool with non-expiring workers; every task's submit/begin/end/destroy events are checked; a must-run task that never runs shows up as a scheduler-level deadlock; ASan catches a task freed while running.",
-            "Trusted: pthread model; PRNG-chosen notify_one target and spurious wake-ups are legal POSIX behaviours; sampling.", "§5 C07"),
+            "Legs A (ASan) and T (atomic scheduling points). Trusted: pthread/futex model; PRNG-chosen notify_one target and spurious wake-ups are legal POSIX behaviours; one owner thread, non-expiring workers (the property's scope); sampling.", "§5 C07"),
     "C08": ("detsim", "deterministic simulation: scheduler-level deadlock detection around stop() + post-stop state checks + restart probe, with expiry, clock jumps and starvation of workers between predicate and blocking",
             "stop() must return under every sampled schedule (owner blocked in join while a worker is parked = stop-hang); afterwards thread count 0, nothing running, every earlier task destroyed, a later start() runs its task and a second stop() returns; live worker threads never exceed the maximum.",
-            "Trusted: pthread model and simulated wall clock; sampling.", "§5 C08"),
+            "Legs A and T. Trusted: pthread/futex model and simulated wall clock (jumps in both directions); one owner thread (the properties' scope: concurrent start() callers are not exercised); sampling.", "§5 C08"),
     "C10": ("detsim", "deterministic simulation (single thread): the simulator injects 0-2 mutations at every observer invocation of a running notify round; lock-step reference model of rounds + AddressSanitizer",
             "Borderline case of the family, claimed because the property is about operations that overlap in time with a running notification: the simulator decides online what overlaps with what. Oracle: reference model (round snapshot, skip/expect rules, argument values, handle facts) and ASan for memory safety.",
             "Trusted: the round model is derived from the property text; validity between invalidate() and lazy removal is left open; sampling over decision sequences.", "§5 C10"),
     "C11": ("detsim", "deterministic simulation: seeded schedule search over multi-threaded router programs; completed history checked for linearizability (Wing-Gong search vs. sequential model) + containment and no-call-after-unsubscribe rules + ASan",
             "2-4 threads x 1-4 operations on one ConcurrentSubjectRouter with callbacks that stay in progress across scheduling points; every completed history must be linearizable w.r.t. a sequential live-set model; a delivery in progress when a mutator is called must end before the mutator returns.",
-            "Trusted: pthread model; return values of notify/exists/depth are checked as ranges so that shrink's clean-up policy is not encoded; argument-less notifications only; sampling.", "§5 C11"),
+            "Legs A (ASan) and T (atomic scheduling points). Trusted: pthread/futex model; return values of notify/exists/depth are checked as ranges so that shrink's clean-up policy is not encoded; argument-less notifications only; a quarter of the programs add a second router whose observer operates on the first; sampling.", "§5 C11"),
     "C15": ("detsim", "deterministic simulation + ThreadSanitizer: T-flavour builds of the resource, pool and router harnesses; the simulator announces exactly the POSIX happens-before edges of the primitives it models, TSan's vector clocks decide",
             "Any ThreadSanitizer report in tulz code under the generated intended-use programs is a violation. TSan's verdict depends on happens-before, not on physical overlap, so each explored schedule stands for all schedules with the same synchronisation structure; the simulator's job is to reach worker start-up, expiry, shutdown and restart paths.",
             "Trusted: the simulator's happens-before announcements (mutex release->acquire, cond_wait as release+acquire, create, join); TSan's bounded shadow history; libstdc++ locale caches are pre-warmed.", "§5 C15"),
@@ -34,10 +34,10 @@ CLAIMED = {
             "Modest use of the family (stated in DESIGN.md): what the simulator adds is enumeration order, the handle budget and the global cwd; the string laws and most agreement checks are decided by generated inputs. No symlinks/special files; backslashes excluded.", "§5 C18"),
     "C20": ("detsim", "deterministic simulation: seeded schedule search that delays the first step of the new thread past the death of the launching frame; liveness registry of callable copies + AddressSanitizer stack-use-after-return",
             "Every callable kind x start path x lvalue argument list is launched from a frame that dies; the scheduler decides how late the child first runs; the callable instance invoked must be registered alive at entry and exit, invoked exactly once on another thread, isFinished()/join() only after it returned.",
-            "Trusted: pthread model; ASan fake stacks for use-after-return; sampling.", "§5 C20"),
+            "Legs A (ASan fake stacks for use-after-return; pthread_create EAGAIN injected for callable paths with the oracle 'throws and nothing runs, or runs once intact') and T (atomic scheduling points; the owner reads a plain result after isFinished(), a TSan report there is owned by C20). Trusted: pthread/futex model; sampling.", "§5 C20"),
     "C12": ("detsim", "deterministic simulation: 'no reader parks without an outstanding writer' over histories + rendezvous batches that must not deadlock",
             "Two oracles: (a) a parked read request implies a write request outstanding in [issue, park]; (b) k readers queued behind a writer meet at a simulator barrier inside the critical section and the run must finish.",
-            "Trusted: pthread model; barrier is simulator-native (adds no lock traffic); sampling.", "§5 C12"),
+            "Legs A and T. Trusted: pthread/futex model; barrier is simulator-native (adds no lock traffic); sampling.", "§5 C12"),
 }
 
 NOT_APPLICABLE = {
